@@ -89,7 +89,8 @@ def run(c):
         return "ok"
 
     def model_verdicts(cases, tag):
-        ms = [x for x in cases if x.get("model")]
+        ms = [x for x in cases if x.get("model") and x["kind"] == "helper"]
+        cs = [x for x in cases if x.get("model") and x.get("model_b") and x["kind"] == "const"]
         if not gen_ok or not ms:
             return {}
         pre = ["From Coq Require Import List String Ascii Bool ZArith.",
@@ -102,7 +103,9 @@ def run(c):
         for k in range(NSH):
             sh = ms[k::NSH]
             src = list(pre)
-            src.append("Definition RES := Eval vm_compute in [%s]." % ";\n ".join("(%d, verdict %s)" % (x["id"], x["model"]) for x in sh))
+            src.append("Definition RES := Eval vm_compute in [%s]." % ";\n ".join(
+                ["(%d, verdict %s)" % (x["id"], x["model"]) for x in sh] +
+                ["(%d, const_verdict %s %s)" % (x["id"], x["model"], x["model_b"]) for x in cs[k::NSH]]))
             src.append("Print RES.")
             jobs.append(("Cases_%s_%d.v" % (tag, k), "\n".join(src)))
         out_v = {}
@@ -112,8 +115,8 @@ def run(c):
                 return {}
             for m in re.finditer(r"\(\s*(\d+),\s*(\d+)\s*\)", re.sub(r"\s+", " ", out)):
                 out_v[int(m.group(1))] = int(m.group(2))
-        if len(out_v) != len(ms):
-            c.obligation("coq-eval-parse:" + tag, False, "got %d verdicts for %d cases" % (len(out_v), len(ms)))
+        if len(out_v) != len(ms) + len(cs):
+            c.obligation("coq-eval-parse:" + tag, False, "got %d verdicts for %d cases" % (len(out_v), len(ms) + len(cs)))
         return out_v
 
     def judge(cases, tag):
@@ -163,6 +166,18 @@ def run(c):
                 elif sb != "ok" and sa == "ok":
                     c.fail("oracle", "a constant expression is accepted where the equivalent plain literal is rejected", input=inp,
                            observed="ok", expected=b.get("conv_err") or b.get("load_err"))
+                if x["id"] in verdict and b.get("ir") and not (sa == "conv_err" and not (a.get("conv_err") or "").startswith("irconv error")):
+                    # the model's constant-first step on the annotations go/types produced for both files against the converter
+                    v = verdict[x["id"]]
+                    conv_failed = sa == "conv_err"
+                    if v == 1 and (conv_failed or not x["ir_equal"]):
+                        c.fail("corr", "the Coq model converts the spelled constant to what the plain literal converts to but irconv does not", input=inp,
+                               observed=a.get("conv_err") or a.get("ir"))
+                    elif v == 0 and not conv_failed:
+                        c.fail("corr", "the Coq model rejects the spelled constant but irconv converted it", input=inp, observed=sa)
+                    elif v == 2 and x["ir_equal"]:
+                        c.fail("corr", "the Coq model converts the spelled constant and the plain literal differently but irconv converts them alike", input=inp, observed=v)
+                    c.coverage["model_vs_impl_const_cases"] = c.coverage.get("model_vs_impl_const_cases", 0) + 1
             if nsample < 4 and x["kind"] == "helper" and (sa == "ok") == (nsample % 2 == 0):
                 nsample += 1
                 c.sample({"with_helpers": "func g0" + x["src_a"].split("func g0", 1)[1], "inlined": "func g0" + x["src_b"].split("func g0", 1)[1],
@@ -193,6 +208,12 @@ def run(c):
                 c.coverage[key + tag] = c.coverage.get(key + tag, 0) + sum(
                     1 for x in hs if pred(x) and (x.get("groups", 1) > 1 if fld is None else x.get(fld)))
         c.coverage["const_cases"] = c.coverage.get("const_cases", 0) + len(cases) - len(hs)
+        cat = [x for x in cases if x.get("spell_catalogue")]
+        c.coverage["spelling_catalogue_cases"] = c.coverage.get("spelling_catalogue_cases", 0) + len(cat)
+        c.coverage["spelling_catalogue_call_or_selector_rooted"] = c.coverage.get("spelling_catalogue_call_or_selector_rooted", 0) + sum(
+            1 for x in cat if re.search(r"conversion|len of|imported package", x["spell_catalogue"]))
+        c.coverage["spelling_catalogue_loaded_and_equal"] = c.coverage.get("spelling_catalogue_loaded_and_equal", 0) + sum(
+            1 for x in cat if status(x["a"]) == "ok" and x["ir_equal"])
         gcs = [x for x in cases if x.get("group_consts")]
         c.coverage["equal_named_group_constants_cases"] = c.coverage.get("equal_named_group_constants_cases", 0) + len(gcs)
         c.coverage["equal_named_group_constants_loaded"] = c.coverage.get("equal_named_group_constants_loaded", 0) + sum(1 for x in gcs if status(x["a"]) == "ok")
@@ -203,7 +224,7 @@ def run(c):
         for k in range(3):
             judge(observe(c.seed * 37 + k, 1000, 400, 200), "t%d" % k)
     else:
-        judge(observe(c.seed, 260, 140), "main")
+        judge(observe(c.seed, 260, 80), "main")
 
     def search():
         for k in range(1, 4):
